@@ -1,0 +1,17 @@
+//go:build verif
+
+// Contracts for the deductive verifier in /verif (comment-only; compiled only with -tags verif).
+package farm
+
+// End block: every pool queued for this height is taken off the queue and refunded (errors of a refund are logged, the
+// block never aborts), entries for other heights stay.
+//@ func EndBlocker
+//@   property C13, C06
+//@   requires height >= 0
+//@   requires keeper.rulesWF && keeper.rulesOK && keeper.poolsWF && keeper.activeInv && keeper.activeWF
+//@   modifies active, ruleF, pools, bal
+//@   ensures processed:   forall p:Str :: !has(active, height, p)
+//@   ensures queue_frame: forall q:Int :: forall p:Str :: q != height ==> has(active, q, p) == old(has(active, q, p))
+//@   ensures hygiene:     keeper.activeInv && keeper.activeWF && keeper.poolsWF && keeper.rulesWF && keeper.rulesOK
+//@   nopanic
+//@ end
